@@ -589,6 +589,11 @@ func revokeCert(sc *storageContext, config *crlConfig, cert *x509.Certificate) (
 		// isn't necessary.
 		warnings, crlErr := sc.Backend.crlBuilder.rebuild(sc, false)
 		if crlErr != nil {
+			// The certificate is revoked (a retry of this call will find the
+			// revocation entry and return early, without rebuilding), but the
+			// CRL does not list it yet. Make sure the next reader or periodic
+			// run rebuilds it instead of serving the stale CRL.
+			sc.Backend.crlBuilder.requestRebuildIfActiveNode(sc.Backend)
 			switch crlErr.(type) {
 			case errutil.UserError:
 				return logical.ErrorResponse("Error during CRL building: %s", crlErr), nil
